@@ -9,6 +9,7 @@ for f in sys.argv[1:]:
             res[m.group(1)] = (m.group(2), m.group(3).strip())
 cross = {'C06-5': 'C05', 'C01-7': 'C05', 'C04-8': 'C20 (and C05)', 'C14-7': 'C15', 'C16-7': 'C15', 'C06-9': 'C12', 'C20-8': 'C05',
          'C06-7': 'C05', 'C06-10': 'C05', 'C01-10': 'C16', 'C14-12': 'C16'}
+# (round 5 cross catches come from the `CROSS` lines of the logs only)
 # lines "<id> CROSS <check> CAUGHT|MISSED" in the logs (tools/cross_matrix.sh) confirm the cross catches
 cross_res = {}
 for f in sys.argv[1:]:
@@ -35,11 +36,25 @@ not_caught = {
  'C18-10': 'needs two runs of one task class with different keys interleaved inside Data.save_run_info (shared temp file name); storesim runs one simulated process at a time',
  'C18-12': 'needs one python Config object listed in the `uses` of several top-level configs with different contexts; generated configurations are files / dicts / fresh Config objects per rendering',
  'C20-12': 'needs a directory result holding a relative symlink that points outside its own directory; generated directory values hold files and empty directories only',
+ 'C02-14': 'needs a Path-typed parameter whose value carries a placeholder AND ends in a slash, built under different global-variable values; Path-typed values are generated without trailing separators',
+ 'C04-14': 'needs two simulated processes alive at the same time (process A lists a directory, process B stores a result, A asks again); storesim runs the processes of a history one after the other',
+ 'C13-14': 'needs two member configs of one MultiChain that pull in the same config file under contexts with the same *name* (exp1/context.json, exp2/context.json) but different content; generated context files of one history have distinct names',
+ 'C20-14': 'removes the kept work directory of an unfinished ContinuesData computation from the source; the listing comparison of the source ignores work paths (<name>_tmp), which inspection by the unchanged migration legitimately creates (known finding F5)',
+ 'C01-15': 'needs an optional input declared inside Meta.input_tasks *before* regular inputs, absent from the chain, and a run body reading a later input by index; generated optional inputs are declared after the regular ones',
+ 'C13-15': 'needs MultiChain member config names one of which is a substring of another (model / model_v2) together with access through mc[name]; generated member names (cfg<i>_m<j>) are never substrings of one another',
+ 'C20-15': 'needs the system temporary directory on another file system than the target *and* a process death inside shutil.move; the crash points of the migration profile are counted over operations inside the store only',
+ 'C12-15': 'needs a result that sits at its 1.4.0 place without its run info file (data-only copy); release 1.4.0 always writes the run info beside the result',
  'C20-10': 'neutralised by the F18 repair (82f9451): it needed the empty target file an interrupted copy used to leave; after the repair the rebased change no longer changes behaviour for deterministic tasks (demo exits 0 with and without it)',
 }
 rows = []
-for d in sorted(os.listdir('/verif/seeded')):
+for d in sorted(os.listdir('/verif/seeded'), key=lambda x: (x.split('-')[0], int(x.split('-')[1]))):
     p = f'/verif/seeded/{d}'
+    if d not in res and d not in cross_res and os.path.exists(p + '/meta.json'):
+        # no new result for this change in the given logs: its meta.json stays as it is
+        m_ = json.load(open(p + '/meta.json'))
+        r_ = m_['detection']['result']
+        rows.append((d, r_ if r_ == 'CAUGHT' else ('caught by ' + m_['detection']['also'].split(' ')[-3] if 'also' in m_['detection'] else 'not caught (by design)' if 'by design' in r_ else r_), m_['detection'].get('first_invariant_reported') or ''))
+        continue
     notes = open(p + '/notes.md').read()
     lines = [x.strip('# -*').strip() for x in notes.splitlines() if x.strip()]
     st, msg = res.get(d, ('?', ''))
@@ -49,7 +64,7 @@ for d in sorted(os.listdir('/verif/seeded')):
     if d in cross_res and cross_res[d][1] == 'CAUGHT':
         cross[d] = cross_res[d][0]
     meta = {'property': pid, 'id': d, 'round': rnd,
-            'origin': 'written by an independent sub-agent that was given only the property text (rounds 2-4: plus one-line descriptions of the earlier rounds\' changes to avoid) and a scratch git worktree of /repo - nothing from /verif',
+            'origin': 'written by an independent sub-agent that was given only the property text (rounds 2-5: plus one-line descriptions of the earlier rounds\' changes to avoid) and a scratch git worktree of /repo - nothing from /verif',
             'what': lines[0][:300], 'needs_to_manifest': ' '.join(lines[1:6])[:900],
             'confirmed': {'applies_to': 'current /repo HEAD', 'existing_suite_with_change': '128 passed', 'demo_exit_with_change': 1, 'demo_exit_without_change': 0,
                           'how': 'tools/confirm_mutant.sh <dir> (scratch copy of /repo under /dev/shm, git apply, pytest, demo with/without)'},
